@@ -736,6 +736,44 @@ def interior_of(grid):
             if 0 < a < nx - 1 and (ny < 3 or 0 < b < ny - 1) and (n1z < 3 or 0 < c < n1z - 1)]
 
 
+def dens_population(name, grid, radii, fld):
+    """plain / nonpadding DensityFilters of equal (size, radius) on one domain object and on an equal second one, built and
+    evaluated in interleaved order; earlier filters re-evaluated after later ones exist; one FilterConv radius module"""
+    n = grid[0] * grid[1] * max(grid[2], 1)
+    inner = interior_of(grid) or [0]
+    mods, ops = [], []
+    x1, x2, xc = fld(n), fld(n), [0.75] * n
+    for r in radii:
+        b = len(mods)
+        mods += [dict(kind='dens', radius=r, nonpad=None, dom=0), dict(kind='dens', radius=r, nonpad=inner, dom=0),
+                 dict(kind='dens', radius=r, nonpad=None, dom=1), dict(kind='dens', radius=r, nonpad=sorted(set(range(n)) - set(inner))[:max(1, n // 3)], dom=1),
+                 dict(kind='dens', radius=r, nonpad=None, dom=0)]
+        ops += [['new', b], ['resp', b, x1], ['new', b + 1], ['resp', b + 1, x1], ['resp', b, x1], ['resp', b, xc],
+                ['new', b + 2], ['resp', b + 2, x2], ['new', b + 3], ['resp', b + 3, x2], ['resp', b + 1, x2], ['resp', b, x2],
+                ['new', b + 4], ['resp', b + 4, x1], ['resp', b + 4, xc], ['resp', b + 2, xc], ['resp', b + 3, x1]]
+    # a nonpadding filter built BEFORE the plain one of the same size and radius
+    b = len(mods)
+    r = radii[0] + 0.25
+    mods += [dict(kind='dens', radius=r, nonpad=inner, dom=0), dict(kind='dens', radius=r, nonpad=None, dom=0),
+             dict(kind='fconv', radius=[radii[0], True], modes=['symmetric'] * 6, dom=0)]
+    ops += [['new', b], ['resp', b, x1], ['new', b + 1], ['resp', b + 1, x1], ['resp', b + 1, xc], ['resp', 0, x1],
+            ['new', b + 2], ['resp', b + 2, x1], ['resp', b + 2, xc], ['resp', 0, xc]]
+    return dict(name=name, grid=list(grid), sizes4=[4, 4, 4], mods=mods, ops=ops)
+
+
+def aniso_populations(seed):
+    """the same population structure on strongly anisotropic 3-D domains (z the long axis; a column one element wide), radii
+    beyond the short extents and beyond every extent; own random stream (field values only)"""
+    import random
+    rng = random.Random(f'C09-aniso-pop-{seed}')
+
+    def fld(n):
+        return [float(v) for v in rand_field(rng, n)]
+    return [dens_population('P6 dens 1x1x5 column, r >= 1 and r > domain', (1, 1, 5), (1.0, 5.5), fld),
+            dens_population('P7 dens 2x2x6, r beyond the short extents', (2, 2, 6), (3.5,), fld),
+            dens_population('P8 dens 1x5x2', (1, 5, 2), (2.5,), fld)]
+
+
 def stress_populations(rng):
     """deterministic structure, run on every seed (only the field values vary with the seed)"""
     pops = []
@@ -745,26 +783,7 @@ def stress_populations(rng):
     # ---- P1..P3: DensityFilter populations: plain / nonpadding filters of equal (size, radius) on one domain object and on
     #      an equal second one, built and evaluated in interleaved order; earlier filters re-evaluated after later ones exist
     for name, grid, radii in (('P1 dens 5x4', (5, 4, 0), (2.5, 1.5)), ('P2 dens 3-D', (3, 2, 2), (1.5,)), ('P3 dens 6x1, r > domain', (6, 1, 0), (6.5, 1.0))):
-        n = grid[0] * grid[1] * max(grid[2], 1)
-        inner = interior_of(grid) or [0]
-        mods, ops = [], []
-        x1, x2, xc = fld(n), fld(n), [0.75] * n
-        for r in radii:
-            b = len(mods)
-            mods += [dict(kind='dens', radius=r, nonpad=None, dom=0), dict(kind='dens', radius=r, nonpad=inner, dom=0),
-                     dict(kind='dens', radius=r, nonpad=None, dom=1), dict(kind='dens', radius=r, nonpad=sorted(set(range(n)) - set(inner))[:max(1, n // 3)], dom=1),
-                     dict(kind='dens', radius=r, nonpad=None, dom=0)]
-            ops += [['new', b], ['resp', b, x1], ['new', b + 1], ['resp', b + 1, x1], ['resp', b, x1], ['resp', b, xc],
-                    ['new', b + 2], ['resp', b + 2, x2], ['new', b + 3], ['resp', b + 3, x2], ['resp', b + 1, x2], ['resp', b, x2],
-                    ['new', b + 4], ['resp', b + 4, x1], ['resp', b + 4, xc], ['resp', b + 2, xc], ['resp', b + 3, x1]]
-        # a nonpadding filter built BEFORE the plain one of the same size and radius
-        b = len(mods)
-        r = radii[0] + 0.25
-        mods += [dict(kind='dens', radius=r, nonpad=inner, dom=0), dict(kind='dens', radius=r, nonpad=None, dom=0),
-                 dict(kind='fconv', radius=[radii[0], True], modes=['symmetric'] * 6, dom=0)]
-        ops += [['new', b], ['resp', b, x1], ['new', b + 1], ['resp', b + 1, x1], ['resp', b + 1, xc], ['resp', 0, x1],
-                ['new', b + 2], ['resp', b + 2, x1], ['resp', b + 2, xc], ['resp', 0, xc]]
-        pops.append(dict(name=name, grid=list(grid), sizes4=[4, 4, 4], mods=mods, ops=ops))
+        pops.append(dens_population(name, grid, radii, fld))
     # ---- P4: FilterConv, 2-D: overrides registered after the first response / after get_padded_vector / between responses;
     #      several modules on one domain with different boundary modes; set_filter_radius between responses
     grid = (4, 3, 0)
@@ -854,6 +873,63 @@ def random_population(rng, idx):
     ops += [['resp', j, x] for j in order]
     return dict(name=f'random population {idx}', grid=[nx, ny, nz], sizes4=[4, 4, 4], mods=mods, ops=ops)
 
+
+
+ANISO_GRIDS = [(1, 1, 6), (1, 6, 1), (6, 1, 1), (2, 2, 6), (6, 2, 2), (2, 6, 2), (1, 6, 0), (6, 1, 0), (1, 2, 5), (3, 1, 4)]
+ANISO_RADII = [0.5, 1.0, 1.5, 2.0, 3.5, 5.5, 6.5, 9.0]
+
+
+def stress_anisotropic(ctx, pym, cs, seed):
+    """deterministic, run on every seed (only the field values vary): strongly anisotropic domains -- each axis in turn the
+    long one, columns one element wide, 2-D strips -- with radii from below one element to larger than EVERY extent.
+    DensityFilter is compared with the Coq model (window of half-width int(r) on all three axes, H structure exactly) and with
+    the cone average over ALL elements of the domain (oracle_dens: dense n x n reference, nothing windowed); FilterConv radius
+    kernels on the same domains in relative units and in absolute units with anisotropic element sizes."""
+    import random
+    rng = random.Random(f'C09-aniso-{seed}')
+    t = 0
+    for grid in ANISO_GRIDS:
+        nx, ny, nz = grid
+        n1 = (nx, ny, max(nz, 1))
+        n = nx * ny * n1[2]
+        for r in ANISO_RADII:
+            t += 1
+            x, sd = rand_field(rng, n), rand_field(rng, n)
+            nonpad = sorted(rng.sample(range(n), max(1, n // 2))) if t % 4 == 0 else None
+            ctx.count('aniso:dens long axis %s' % 'xyz'[max(range(3), key=lambda d: n1[d])])
+            ctx.count('aniso:dens r %s every extent' % ('>' if r > max(n1) else ('< 1' if r < 1 else 'within')))
+            res = case_dens(ctx, pym, cs, grid, r, x, sd, nonpad)
+            if res is not None:
+                m, y, dx = res
+                oracle_dens(ctx, grid, float(r), x, y, nonpad)
+                if nonpad is None:
+                    oracle_const(ctx, m, m.sig_in[0], n, [], 'DensityFilter._response')
+            # FilterConv radius kernel on the same domain
+            relative = t % 2 == 0
+            sizes4 = [4, 4, 4] if relative else [[2, 4, 8], [8, 2, 4], [4, 8, 2], [3, 5, 6]][t % 4]
+            kinds = ['symmetric'] * 6 if t % 3 else [['edge', 'wrap', 'symmetric', 'edge', 'wrap', 'wrap'],
+                                                     ['wrap', 'const', 'edge', 'symmetric', 'symmetric', 'edge']][(t // 3) % 2]
+            modes = make_modes(kinds)
+            x, sd = rand_field(rng, n), rand_field(rng, n)
+            ctx.count('aniso:radius ' + ('relative' if relative else 'absolute, anisotropic element sizes'))
+            res = case_radius(ctx, pym, cs, grid, r, relative, sizes4, modes, x, sd)
+            if res is None:
+                continue
+            m, y, dx = res
+            w = np.array(m.weights)
+            ctx.search_evaluations += 1
+            d = [1.0, 1.0, 1.0] if relative else [s_ / 4.0 for s_ in sizes4]
+            want = [min(n1[k], int((r - 1e-10 * d[k]) / d[k])) for k in range(3)]
+            if nz == 0:
+                want[2] = 0
+            wr = cone_ref(r, relative, d, [2 * q + 1 for q in want])
+            if list(w.shape) != [2 * q + 1 for q in want] or np.max(np.abs(w - wr)) > 1e-12:
+                ctx.violation('impl-violates', 'FilterConv.set_filter_radius', 'kernel = normalised cone on ALL offsets within the radius (clipped to the domain size per axis)',
+                              'relative' if relative else 'absolute', dict(grid=grid, radius=r, sizes=d),
+                              expected=wr.tolist(), got=w.tolist())
+            oracle_fconv(ctx, grid, w, modes, x, y, [], list(m.pad_sizes), call='FilterConv(radius)')
+            if not any(isinstance(mm, Number) for mm in modes):
+                oracle_const(ctx, m, m.sig_in[0], n, modes, 'FilterConv(radius)')
 
 
 # ----------------------------------------------------------------------------- generation
@@ -948,7 +1024,10 @@ def run(ctx):
                 'modes) on one shared input signal, constructed and evaluated in interleaved order, earlier modules re-evaluated '
                 'after later ones exist; FilterConv: override_values (mask/ints/point/slice), override_padded_values '
                 '(ints/meshgrid box/empty) and set_filter_radius (kernel shape preserved) called AFTER responses / get_padded_vector, '
-                'every later response and padded vector compared with `frun` / `drun` and with a numpy reference.  A case is non-trivial when something is padded / the '
+                'every later response and padded vector compared with `frun` / `drun` and with a numpy reference.  Anisotropic domains (deterministic, every seed): '
+                'DensityFilter and FilterConv radius kernels on 1x1x6, 1x6x1, 6x1x1, 2x2x6, 6x2x2, 2x6x2, 1x2x5, 3x1x4, 1x6, 6x1 with radii 0.5 .. 9 '
+                '(below one element .. larger than every extent), compared with the model and with the cone average over ALL elements (dense reference); '
+                '3 populations on such domains.  A case is non-trivial when something is padded / the '
                 'filter is not the identity; distinct by (kind, grid, pads or kernel shape, modes, data hash)')
     ctx.assumptions += [
         '2-D domains (nelz = 0) are used with 2-D kernels (z-width 1); a z-thick kernel on a 2-D domain is wider than the padded '
@@ -1105,8 +1184,11 @@ def run(ctx):
         if nonpad is None:
             oracle_const(ctx, m, m.sig_in[0], n, [], 'DensityFilter._response')
 
+    # ---- strongly anisotropic domains, every run
+    stress_anisotropic(ctx, pym, cs, ctx.seed)
+
     # ---- histories and populations: several modules per process, option-changing methods between responses
-    for pop in stress_populations(rng):
+    for pop in stress_populations(rng) + aniso_populations(ctx.seed):
         run_population(ctx, pym, cs, pop)
     for t in range(6 if quick else 60):
         run_population(ctx, pym, cs, random_population(rng, t))
